@@ -143,6 +143,13 @@ def check(prog, run):
                     ok = all(v[0] == "expr" and L.field_names(v[1]) for v in vals)
                     run.check(ok, "R6", "%s av1C fields" % name, "profile/level and tier/bit-depth/chroma bytes are computed from the parsed sequence header",
                               "%s av1C profile/level/tier/bit-depth/chroma bytes are constants (%s), not the values of the supplied sequence header" % (name, [v[1].hex() if v[0] == "const" else "?" for v in vals]))
+                    # configOBUs: the bytes that were stored / supplied, verbatim - not something re-derived by a parser on the way out
+                    blobs = [sg for sg in (rest or []) if sg[0] == "blob"]
+                    def derived(e):
+                        return L.mentions(e, lambda y: isinstance(y, tuple) and y[:1] == ("call",) and any(str(y[1]).endswith(h_.split("::")[-1]) and h_ in u.hir for h_ in u.hir if h_.split("::")[-1] == str(y[1]).split("::")[-1]))
+                    okb = len(blobs) == 1 and not derived(blobs[0][1]) and any("sequence_header" in f_ for f_ in L.field_names(blobs[0][1]))
+                    run.check(okb, "R6", "%s av1C configOBUs" % name, "the stored / supplied sequence-header bytes themselves",
+                              "%s av1C configOBUs is %s: not the sequence-header bytes that were supplied (a value re-derived by a local function drops or rewrites OBUs)" % (name, [L.show(x[1])[:100] for x in blobs] or "missing"))
             if p[-1] == b"vpcC":
                 alts = B.alternatives(b[2], B.facts_of(c))
                 for a in alts:
@@ -360,6 +367,20 @@ def audio_entry(moov, run):
                 names |= L.field_names(s[1])
             run.check({"sample_rate", "channels"} <= names, "R5", "esds AudioSpecificConfig", "ASC bytes computed from the configured sample rate and channel count",
                       "the AudioSpecificConfig does not derive from the configured sample rate and channels (%s)" % sorted(names))
+        if p[-1] in (b"mp4a", b"Opus"):
+            view, rest = B.byte_view(b[2])
+            ch, sr = B.field_value(view, 16, 2), B.field_value(view, 24, 4)
+            chv = ch[1][1] if ch[0] == "expr" else None
+            while chv is not None and chv[0] == "cast":
+                chv = chv[2]
+            run.check(chv is not None and chv[0] == "field" and chv[2] == "channels", "R5", "%s channelcount" % B.fc_str(p[-1]), "the configured channel count", "sample entry channel count is %s" % (L.show(ch[1])[:80] if ch[0] == "expr" else str(ch)))
+            if p[-1] == b"Opus":
+                ok = sr[0] == "const" and int.from_bytes(sr[1], "big") == 48000 << 16
+                run.check(ok, "R5", "Opus samplerate", "48000 << 16 whatever the configured input rate", "the Opus sample entry's rate is %s, the binding prescribes 48000 Hz" % (L.show(sr[1])[:80] if sr[0] == "expr" else str(sr)))
+            else:
+                from .. import spec as S_
+                ok = sr[0] == "expr" and S_.shl16_of("sample_rate")(sr[1][1])
+                run.check(ok, "R5", "mp4a samplerate", "configured sample rate << 16", "the mp4a sample entry's rate is %s" % (L.show(sr[1])[:80] if sr[0] == "expr" else str(sr)))
         if p[-1] == b"dOps":
             view, rest = B.byte_view(b[2])
             ch = B.field_value(view, 1, 1)
@@ -743,6 +764,10 @@ def parameter_set_table_rule(prog, run, rule):
                     m.lenient = True
                     r = m.call_fn(ex, [fr])
                     n += 1
+                    if isinstance(r, E.Adt) and r.name == "Option" and r.variant == 0:
+                        if bad is None:
+                            bad = (b, first, "*", None, -1, type_of(b))
+                        continue
                     if not (isinstance(r, E.Adt) and r.name == "Option" and r.variant == 1 and isinstance(r.fields[0], E.Adt) and r.fields[0].names):
                         raise E.Unsupported("result outside the model for header byte 0x%02x: %r" % (b, r))
                     cfg = r.fields[0]
@@ -757,7 +782,8 @@ def parameter_set_table_rule(prog, run, rule):
             run.bad(rule, "parameter-set table %s" % fn_name.split("::")[-1], "cannot tabulate the extractor (fail closed): %s" % e, mir.loc_of(u.bodies[ex]))
             continue
         run.check(bad is None, rule, "parameter-set table %s" % fn_name.split("::")[-1], "every header byte: unit stored in the slot of its type only, first unit of a type wins (256 x 2 frames)",
-                  "" if bad is None else "a NAL unit with header byte 0x%02x (type %d) placed %s: slot `%s` holds unit #%s of the frame, the specification's unit is #%d" % (bad[0], bad[5], "first" if bad[1] else "last", bad[2], bad[3], bad[4]), mir.loc_of(u.bodies[ex]))
+                  "" if bad is None else (("a frame that contains every parameter set plus a NAL unit with header byte 0x%02x (type %d) placed %s yields no configuration at all: such a first keyframe is rejected as `missing parameter sets`" % (bad[0], bad[5], "first" if bad[1] else "last")) if bad[4] == -1 else
+                                          "a NAL unit with header byte 0x%02x (type %d) placed %s: slot `%s` holds unit #%s of the frame, the specification's unit is #%d" % (bad[0], bad[5], "first" if bad[1] else "last", bad[2], bad[3], bad[4])), mir.loc_of(u.bodies[ex]))
     run.floor(rule, n, 1024, "extractor evaluations")
 
 
